@@ -135,6 +135,7 @@ def obligations(tier, seed):
         obs = keep + rnd.sample(rest, len(rest) // 2)
     flips = [RenameOb(k, st, "ansi", "flip_as", budget=BUDGET[tier], seed=seed) for k, st in tpl if "/plain" in k and k.startswith("insert/")]
     obs += [o for o in flips if o.has_local]
+    _nbase = len(obs)
     if tier == "thorough":
         for key, st in tpl:
             if "/plain" in key and key.startswith(("insert/", "ctas/")):
@@ -147,4 +148,11 @@ def obligations(tier, seed):
                     o = RenameOb(key, st, d, "rename", budget=5, seed=seed)
                     if o.has_local:
                         obs.append(o)
+    if tier == "thorough" and len(obs) > 600:
+        # sized by wall time: every base instance, and a seeded share of the additional length / dialect instances
+        import random as _r
+
+        extras = obs[_nbase:]
+        room = max(0, 600 - _nbase)
+        obs = obs[:_nbase] + _r.Random("c08cap/%s" % seed).sample(extras, min(len(extras), room))
     return obs
